@@ -14,12 +14,14 @@ Key == {"k1", "k2", "k3"}
 IDOf(k) == <<"mh", "identity", <<"pubproto", k>>>>
 PeerIdPairs == [prop : {"C10"}, kind : {"pair"}, a : Key, b : Key]
 PeerIdBytes == [prop : {"C10"}, kind : {"bytes"}, code : {"identity", "sha256"}, codeVar : {"ok", "trunc", "overflow", "empty"},
-                lenRel : {"eq", "short", "long"}, lenVar : {"ok", "trunc"}, digest : {"keyproto", "wrongtype", "garbage", "empty"},
+                lenRel : {"eq", "short", "long"}, lenVar : {"ok", "trunc"}, digest : {"keyproto", "keyprotoAlt", "wrongtype", "garbage", "empty"},   \* keyprotoAlt: the same key, protobuf fields in non-canonical order
                 text : {"b58", "notb58"}]
 ExpBytes(c) ==
   LET wf == c.codeVar = "ok" /\ c.lenVar = "ok" /\ c.lenRel = "eq" /\ c.text = "b58"
   IN [parse |-> IF ~wf THEN "reject" ELSE IF c.code = "identity" THEN "accept" ELSE "dc",
-      extract |-> IF wf /\ c.code = "identity" /\ c.digest = "keyproto" THEN "accept" ELSE "reject"]
+      extract |-> IF wf /\ c.code = "identity" /\ c.digest \in {"keyproto", "keyprotoAlt"} THEN "accept" ELSE "reject",
+      \* an ID matches a key exactly when it was derived from it: only the canonical encoding is the key's ID
+      matches |-> wf /\ c.code = "identity" /\ c.digest = "keyproto"]
 ExpPair(c) == [same |-> c.a = c.b]
 
 \* ---------------------------------------------------------------- C11
